@@ -39,10 +39,29 @@ func VerifH17() {
 		switch vChoose(8) {
 		case 0:
 		case 1:
-			code = vSymText(2)
+			// an arbitrary code, or one of the package's own constants (the
+			// uncategorised default and an XX-class code are special-cased by the code)
+			switch vChoose(4) {
+			case 0:
+				code = vSymText(2)
+			case 1:
+				code = []byte(codes.Uncategorized)
+			case 2:
+				code = []byte(codes.Internal)
+			default:
+				code = []byte(codes.Syntax)
+			}
 			err = psqlerr.WithCode(err, codes.Code(string(code)))
 		case 2:
-			sev = vSymText(2)
+			// an arbitrary severity, or the package's constants (ERROR is the default)
+			switch vChoose(3) {
+			case 0:
+				sev = vSymText(2)
+			case 1:
+				sev = []byte(psqlerr.LevelError)
+			default:
+				sev = []byte(psqlerr.LevelFatal)
+			}
 			err = psqlerr.WithSeverity(err, psqlerr.Severity(string(sev)))
 		case 3:
 			hint = vSymText(2)
